@@ -42,6 +42,10 @@ M = [
  ("entitypool-available-off", "ecs/pool.go", "// Available returns the current number of available/recycled entities.\nfunc (p *entityPool) Available() int {\n\treturn int(p.available)", "// Available returns the current number of available/recycled entities.\nfunc (p *entityPool) Available() int {\n\tif p.available > 9 {\n\t\treturn int(p.available) - 1\n\t}\n\treturn int(p.available)", ["C19", "C02"]),
  ("copytoend-from-row1", "ecs/column.go", "\tif c.isTrivial {\n\t\tsrc := from.Get(0)\n\t\tdst := c.Get(uintptr(start))\n\t\tcopyPtr(src, dst, c.itemSize*uintptr(count))\n\t\treturn\n\t}\n\tcopyRange(from.data, c.data, int(start), int(count))", "\tif c.isTrivial {\n\t\tsrc := from.Get(0)\n\t\tdst := c.Get(uintptr(start))\n\t\tif count > 9 && c.itemSize == 3 {\n\t\t\tcount--\n\t\t}\n\t\tcopyPtr(src, dst, c.itemSize*uintptr(count))\n\t\treturn\n\t}\n\tcopyRange(from.data, c.data, int(start), int(count))", ["C01", "C06"]),
  ("emit-skips-with-check", "ecs/events.go", "\t\tif o.hasWith && !entityMask.Contains(&o.withMask) {\n\t\t\tcontinue\n\t\t}\n\t\tif o.hasWithout && entityMask.ContainsAny(&o.withoutMask) {\n\t\t\tcontinue\n\t\t}\n\t\to.callback(e)\n\t}\n}\n\n// Reset the observer manager.", "\t\tif o.hasWith && !entityMask.ContainsAny(&o.withMask) {\n\t\t\tcontinue\n\t\t}\n\t\tif o.hasWithout && entityMask.ContainsAny(&o.withoutMask) {\n\t\t\tcontinue\n\t\t}\n\t\to.callback(e)\n\t}\n}\n\n// Reset the observer manager.", ["C08"]),
+ ("set-no-event-when-locked", "ecs/map.go", "\tif m.world.storage.observers.HasObservers(OnSetComponents) {\n\t\tnewMask := &m.world.storage.archetypes[m.world.storage.tables[index.table].archetype].mask\n\t\tm.world.storage.observers.FireSet(entity, &m.mask, newMask)", "\tif !m.world.IsLocked() && m.world.storage.observers.HasObservers(OnSetComponents) {\n\t\tnewMask := &m.world.storage.archetypes[m.world.storage.tables[index.table].archetype].mask\n\t\tm.world.storage.observers.FireSet(entity, &m.mask, newMask)", ["C08", "C07"]),
+ ("swapremove-raw-overwrite", "ecs/table.go", "\t\t\tcopyValue(column.data, column.data, int(lastIndex), int(index))\n\t\t\tcolumn.Zero(lastIndex, t.zeroPointer)", "\t\t\tcopyPtr(unsafe.Add(column.pointer, lastIndex*column.itemSize), unsafe.Add(column.pointer, uintptr(index)*column.itemSize), column.itemSize)\n\t\t\tcolumn.Zero(lastIndex, t.zeroPointer)", ["C11"]),
+ ("exchange-no-table-refetch", "ecs/world_internal.go", "\tnewTable, newArch, relRemoved := w.storage.findOrCreateTable(oldTable, add, rem, relations, &mask)\n\n\t// Get the old table and archetype again, as the pointer may have changed.\n\toldTable = &w.storage.tables[oldTable.id]\n", "\tnewTable, newArch, relRemoved := w.storage.findOrCreateTable(oldTable, add, rem, relations, &mask)\n\n", ["C01", "C04"]),
+ ("setrelations-no-table-refetch", "ecs/world_internal.go", "\t\tnewTable = w.storage.createTable(oldArch, newRelations)\n\t\t// Get the old table again, as pointers may have changed.\n\t\toldTable = &w.storage.tables[oldTable.id]\n", "\t\tnewTable = w.storage.createTable(oldArch, newRelations)\n", ["C04", "C01"]),
  ("mask64-bit63", "ecs/mask64.go", "func (b *bitMask64) ContainsAny(other *bitMask64) bool {\n\treturn b.bits&other.bits != 0", "func (b *bitMask64) ContainsAny(other *bitMask64) bool {\n\treturn (b.bits&other.bits)<<1 != 0", ["C20"]),
 ]
 
